@@ -17,23 +17,24 @@ import (
 type Cfg struct {
 	Prop string
 
-	MaxPipelines int
-	MaxTasks     int
-	MaxConc      int
-	DelayPct     int   // percentage of pipelines with a start delay
-	LimitChoices []int // -1 = unset
-	ReplacePct   int
-	CyclicPct    int // percentage of pipelines with a cyclic task graph
-	ReservedPct  int // percentage of schedule requests carrying the reserved variable name
-	EmptyPct     int // percentage of tasks with an empty script
-	AllowFailPct int
-	ContinuePct  int // percentage of pipelines with continue_running_tasks_after_failure
-	Retention    bool
-	Preload      bool     // jobs of an earlier run in the store (C12)
-	Logs         bool     // real FileOutputStore; the stand-in runner writes a log file per task
-	DiskStore    bool     // real JsonDataStore in a temporary directory behind the gate
-	RichPayload  bool     // job variables, users and error texts of every shape
-	ReloadKinds  []string // restricts the edit kinds of reloads (nil = all)
+	MaxPipelines  int
+	MaxTasks      int
+	MaxConc       int
+	DelayPct      int   // percentage of pipelines with a start delay
+	LimitChoices  []int // -1 = unset
+	ReplacePct    int
+	CyclicPct     int // percentage of pipelines with a cyclic task graph
+	ReservedPct   int // percentage of schedule requests carrying the reserved variable name
+	EmptyPct      int // percentage of tasks with an empty script
+	AllowFailPct  int
+	ContinuePct   int // percentage of pipelines with continue_running_tasks_after_failure
+	Retention     bool
+	Preload       bool     // jobs of an earlier run in the store (C12)
+	Logs          bool     // real FileOutputStore; the stand-in runner writes a log file per task
+	ShutdownAtEnd bool     // every history ends with a shutdown
+	DiskStore     bool     // real JsonDataStore in a temporary directory behind the gate
+	RichPayload   bool     // job variables, users and error texts of every shape
+	ReloadKinds   []string // restricts the edit kinds of reloads (nil = all)
 
 	Weights map[string]int // action weights
 	Armed   map[string]bool
